@@ -13,7 +13,7 @@ import (
 func init() {
 	register("C16", Meta{
 		Explanation: "Structural necessary conditions for confirmations: (guards) the ExternalSignatureKey write of the message path is cut off from the entry by: chain id valid (CheckChainID err == nil); signer resolved to a bonded validator (C02.signer-bonded resolver, err == nil); the outgoing tx looked up under conf.GetStoreIndex(chain) is non-nil; GetValidatorExternalAddress(chain, val) == conf.GetSigner(); no signature stored yet under the same (chain, index, validator); and the write stores under that validator; (index-agreement) for each of the three tx kinds OutgoingTx.GetStoreIndex and its Confirmation.GetStoreIndex build the index with the same key constructor from corresponding fields; (key-schema) the signature key is prefix|chain|index|validator, its readers iterate prefix|chain|index, and the Unsigned… queries test exactly (chain, otx.GetStoreIndex(chain), requesting validator); (attribution) the three …Confirmations queries attribute each signature to GetValidatorExternalAddress(chain, iterated validator).",
-		NotDecided: []string{"query results over histories beyond key agreement", "ECDSA validity of the confirmation (the check is deliberately disabled in the code and not part of the property)"},
+		NotDecided:  []string{"query results over histories beyond key agreement", "ECDSA validity of the confirmation (the check is deliberately disabled in the code and not part of the property)"},
 		Assumptions: commonAssumptions,
 	}, checkC16)
 }
@@ -349,7 +349,9 @@ func derivesFrom(p *ana.Prog, v ssa.Value, src ssa.Value) bool {
 	if ex, ok := v.(*ssa.Extract); ok && srcCall != nil && ex.Tuple == srcCall {
 		return true
 	}
-	l := p.Leaves(v, ana.PVOpt{Opaque: func(d ana.CalleeDesc) bool { return d.Recv != "ValAddress" && d.Recv != "AccAddress" && d.Recv != "Address" }})
+	l := p.Leaves(v, ana.PVOpt{Opaque: func(d ana.CalleeDesc) bool {
+		return d.Recv != "ValAddress" && d.Recv != "AccAddress" && d.Recv != "Address"
+	}})
 	for _, vals := range l.Vals {
 		for _, x := range vals {
 			if x == src || (srcCall != nil && x == srcCall) {
